@@ -171,6 +171,15 @@ def run(ctx):
             add("dtw_ndim.warping_path", lambda: (dtw_ndim.warping_path(s1, s2, **kw), None))
             add("dtw_cc.warping_path_ndim", lambda: dtw_cc.warping_path_ndim(
                 s1, s2, nd, include_distance=True, **dtw.DTWSettings(**kw).c_kwargs()))
+
+            def compact_nd():
+                # multivariate compact matrix through the Python wrapper (its defaults), traced by the C routine
+                d, wps = dtw_ndim.warping_paths_fast(s1, s2, compact=True, keep_int_repr=True, **kw)
+                ck = dtw.DTWSettings(**kw).c_kwargs()
+                return dtw_cc.best_path_compact(wps, len(s1), len(s2), **ck), None
+            add("dtw_cc.best_path_compact(ndim matrix)", compact_nd)
+            add("best_path(C ndim matrix, int repr, penalty)", lambda: (
+                dtw.best_path(dtw_ndim.warping_paths_fast(s1, s2, keep_int_repr=True, **kw)[1], penalty=pen_int), None))
         good_paths = []
         for name, val in routes:
             res.evaluations += 1
